@@ -285,7 +285,7 @@ package git
 //gvc:  lit 1 invariant sep: p.seen != p.missing
 //gvc:  lit 1 invariant grow: forall(k, old(has(p.seen, k)) ==> has(p.seen, k))
 //gvc:  lit 1 invariant mgrow: forall(k, old(has(p.missing, k)) ==> has(p.missing, k))
-//gvc:  lit 1 invariant closed: forall(a, has(p.seen, a) && !old(has(p.seen, a)) && !has(p.missing, a) ==> forall(b, spec_child(a, b) ==> has(p.seen, b)))
+//gvc:  lit 1 okinvariant closed: forall(a, has(p.seen, a) && !old(has(p.seen, a)) && !has(p.missing, a) ==> forall(b, spec_child(a, b) ==> has(p.seen, b)))
 //gvc:  lit 1 ensures root: litresult == nil && ref.t == plumbing.HashReference ==> has(p.seen, ref.h)
 //gvc:  ensures grow: forall(k, old(has(p.seen, k)) ==> has(p.seen, k))
 //gvc:  ensures closed: result == nil ==> forall(a, has(p.seen, a) && !old(has(p.seen, a)) && !has(p.missing, a) ==> forall(b, spec_child(a, b) ==> has(p.seen, b)))
